@@ -83,11 +83,22 @@ impl Ev {
                 if *dup { " dup" } else { "" },
                 props.iter().filter(|p| p.id == 11).count()
             ),
-            SPacket::Ack { ty, reason, form, .. } => format!(
-                "{} r{:#x} form{}",
+            SPacket::Ack { ty, reason, form, pid, .. } => format!(
+                "{} r{:#x} form{}{}",
                 ["", "", "", "", "PUBACK", "PUBREC", "PUBREL", "PUBCOMP"][*ty as usize],
                 reason,
-                form
+                form,
+                // an acknowledgement addressed to an operation whose future was dropped
+                if *ty != 6
+                    && m.by_pid.get(pid).map(|v| v.iter().any(|&i| {
+                        let o = &m.ops[i];
+                        !o.alive && matches!(o.st, St::AwaitAck | St::AwaitRec | St::AwaitComp)
+                    })).unwrap_or(false)
+                {
+                    " for-cancelled-op"
+                } else {
+                    ""
+                }
             ),
             SPacket::Suback { .. } => "SUBACK".into(),
             SPacket::Unsuback { .. } => "UNSUBACK".into(),
